@@ -387,6 +387,7 @@ func (t *WeightedMerkleTrie) Commit(collapseLevel int) (storage.Batcher, error) 
 		close(deleteChan)
 		close(createdChan)
 		wg.Wait()
+		t.unscheduleCreated()
 	}()
 	t.collectDeleteAndCreated(deleteChan, createdChan, wg)
 	if ok {
@@ -432,6 +433,31 @@ func (t *WeightedMerkleTrie) Commit(collapseLevel int) (storage.Batcher, error) 
 	}
 	t.root = node
 	return batcher, nil
+}
+
+// unscheduleCreated takes the hashes the finished commit has written out of the
+// list of hashes scheduled for collection: a node that was removed and came back
+// with the same content (delete and re-add, a change that was undone, content that
+// moved to another position) is one stored record under one hash, and that record
+// is live. The created-hash collector cancels such a hash in deleted (staged by an
+// earlier DeleteNodes pass); the ones scheduled since the last pass sit in
+// tempDeleted, which the other collector is still appending to while the commit
+// runs, so they are cancelled here, once both collectors have finished.
+func (t *WeightedMerkleTrie) unscheduleCreated() {
+	if len(t.tempDeleted) == 0 || len(t.created) == 0 {
+		return
+	}
+	created := make(map[string]struct{}, len(t.created))
+	for _, hash := range t.created {
+		created[string(hash)] = struct{}{}
+	}
+	kept := t.tempDeleted[:0]
+	for _, hash := range t.tempDeleted {
+		if _, ok := created[string(hash)]; !ok {
+			kept = append(kept, hash)
+		}
+	}
+	t.tempDeleted = kept
 }
 
 func (t *WeightedMerkleTrie) RollbackTrie(node Node) {
